@@ -75,8 +75,8 @@ VARIANTS = dict(
     C05=dict(quick=['resume/0/2', 'resume/1/2', 'slices'],
              thorough=['resume2/0/3', 'resume2/1/3', 'resume2/2/3', 'slices', 'mixed/0/2',
                        'mixed/1/2']),
-    C10=dict(quick=['slices', 'resume', 'raise'],
-             thorough=['slices', 'resume', 'raise', 'finish', 'mixed/0/2', 'mixed/1/2']),
+    C10=dict(quick=['slices', 'resume', 'raise', 'raise_shell'],
+             thorough=['slices', 'resume', 'raise', 'raise_shell', 'finish', 'mixed/0/2', 'mixed/1/2']),
     C11=dict(quick=['observe'], thorough=['observe']),
     C12=dict(quick=['toggle-resume/0/2', 'toggle-resume/1/2', 'toggle2/0/2', 'toggle2/1/2', 'nshell'],
              thorough=['toggle-resume/0/2', 'toggle-resume/1/2', 'toggle3/0/3', 'toggle3/1/3',
@@ -178,9 +178,23 @@ def config(prop, tier, scn, variant):
                 return [('runto', n_eff, 200), ('runto', int(max(n_eff, st.n_eff) * 1.5), 40)]
             return [('resume',)] if st.path[-1][0] == 'runto' else []
         cfg.update(alphabet=_alpha(('step',)), terminal_alphabet=terminal_alphabet, R=1)
+    elif variant == 'raise_shell':
+        # after "done": a later run() call asks for more samples per shell than one batch holds
+        # (n_shell = 3 n_batch), under a budget of one batch per call; followed for 8 batches
+        def terminal_alphabet(st):
+            if not any(a[0] == 'raise' for a in st.path):
+                return [('raise', st.target[0], 3 * scn['n_batch'])]
+            return []
+
+        def alphabet(st):
+            k = next((i for i, a in enumerate(st.path) if a[0] == 'raise'), None)
+            if k is not None and len(st.path) - k > 8:
+                return []
+            return [('step',)] + ([('resume',), ('run2',), ('tick', 2)] if k is not None else [])
+        cfg.update(alphabet=alphabet, terminal_alphabet=terminal_alphabet, R=1)
     elif variant == 'observe':
         def alphabet(st):
-            acts = [('step',)]
+            acts = [('step',)] + ([('finish',)] if st.depth == 0 else [])
             if scn['pool_l']:
                 acts += [('sched', 'rev'), ('sched', 'rot1')]
                 if tier == 'thorough':
@@ -225,7 +239,8 @@ def config(prop, tier, scn, variant):
 SCENARIOS = dict(
     C01=dict(quick=['gauss', 'two_split', 'wrap_net', 'half', 'g3_pool_s', 'plateau', 'nlb',
                     'funnel_net', 'ring_net', 'ring_split_net:resume', 'const:resume',
-                    'wrap_pool_s:resume', 'g5:resume', 'net2_tanh:resume', 'cross_split:resume'],
+                    'wrap_pool_s:resume', 'g5:resume', 'net2_tanh:resume', 'cross_split:resume',
+                    'empty:resume'],
              thorough=['gauss', 'gauss_net', 'two', 'ring_net', 'half', 'plateau', 'wrap',
                        'wrap_net', 'g3_pool_s', 'two_pool_s', 'b7_update', 'blob_two_obj', 'b1',
                        'funnel_net', 'funnel', 'nlb', 'nlb_ring', 'empty', 'two_split', 'ring_split_net',
